@@ -10,14 +10,14 @@ Open Scope list_scope.
    attempts while another candidate was already deleted) is emitted twice by the harness: once with
    [MCore] (correspondence and every clause except the refuted one, without a key) and once with
    [MPartial], which evaluates only that clause and carries the finding's key. [MAll] evaluates everything. *)
-Inductive mode := MAll | MCore | MPartial.
+Inductive mode := MAll | MCore | MPartial | MOrphan.   (* MOrphan: only the reachability clause (finding first-candidate-vanished) *)
 
 Inductive case := Case (m : mode) (n : nat) (steps : list (op * obs)).
 
 Definition ret_eqb (a b : ret) : bool :=
   match a, b with
   | Started, Started | ErrInvalid, ErrInvalid | ErrBusy, ErrBusy | ErrMark, ErrMark | ErrCreate, ErrCreate
-  | RNoCmd, RNoCmd | RRequeue, RRequeue | RSucceeded, RSucceeded | RFailed, RFailed
+  | RDropped, RDropped | RNoCmd, RNoCmd | RRequeue, RRequeue | RSucceeded, RSucceeded | RFailed, RFailed
   | COk, COk | CErr, CErr | CUnsynced, CUnsynced | EnvOk, EnvOk => true
   | _, _ => false
   end.
@@ -32,7 +32,8 @@ Definition effect_eqb (a b : effect) : bool :=
 
 Definition node_eqb (a b : node) : bool :=
   Bool.eqb (n_taint a) (n_taint b) && Bool.eqb (n_cond a) (n_cond b) && Bool.eqb (n_del a) (n_del b) &&
-  Bool.eqb (n_mark a) (n_mark b) && Bool.eqb (n_stdel a) (n_stdel b) && Bool.eqb (n_gone a) (n_gone b).
+  Bool.eqb (n_mark a) (n_mark b) && Bool.eqb (n_stdel a) (n_stdel b) && Bool.eqb (n_gone a) (n_gone b) &&
+  match n_obj a, n_obj b with NPresent, NPresent | NDeleting, NDeleting | NGone, NGone => true | _, _ => false end.
 
 Definition repl_eqb (a b : repl) : bool :=
   Bool.eqb (r_exists a) (r_exists b) && Bool.eqb (r_init a) (r_init b) &&
@@ -54,6 +55,8 @@ Definition oracle (m : mode) (x : ostep) : list string :=
   let t := match m with MAll | MPartial => true | _ => false end in
   (if core && negb (del_after_init_b x) then ["oracle:candidate-deleted-before-replacements-ready"] else []) ++
   (if t && negb (failed_deletes_nothing_b x) then ["oracle:failed-command-deleted-a-candidate"] else []) ++
+  (if (match m with MAll | MOrphan => true | _ => false end) && negb (cmd_reachable_b x)
+   then ["oracle:command-unreachable-with-live-candidates"] else []) ++
   (if core && negb (failed_rolls_back_b x) then ["oracle:failed-command-not-rolled-back"] else []) ++
   (if core && negb (start_failure_inert_b x) then ["oracle:failed-start-not-inert"] else []) ++
   (if core && negb (cleanup_restores_b x) then ["oracle:cleanup-left-stale-marking"] else []) ++
